@@ -727,6 +727,13 @@ func checkC07(c *core.Ctx) error {
 					dch <- done{j.why, "any sources, disk=trunc(" + j.r.rc.Class + "): no initial packages were loaded", j.r}
 					continue
 				}
+				if strings.Contains(j.why, "fails although") && j.r.rc.Disk == "trunc" && j.r.rc.Class == "midFunc" && j.r.rc.V2.has("nest") && strings.Contains(j.r.note, "the first argument, (), is not of type slice") {
+					// a remnant cut inside the declaration of deriveKeys still parses in part; the outer call of
+					// deriveSort(deriveKeys(m)) is typed from that broken declaration ('()') and Add rejects it.
+					// The failing input is: nested call + that truncation class; the other call sites and edits play no role
+					dch <- done{j.why, "sources with deriveSort(deriveKeys(m)), disk=trunc(midFunc) cut inside the old declaration of the inner function: outer call typed '()'", j.r}
+					continue
+				}
 				for _, sub := range subCases(j.r.rc) {
 					f, err := failsWith(chk, sub, j.why)
 					if err != nil {
